@@ -172,7 +172,7 @@ def check_array(vector, L, i, st, viol, case, deep=True):
                     continue
                 for q, g in enumerate(cn):
                     wv = t[idx][g]
-                    if c[q].tobytes() != wv.tobytes() if hasattr(c[q], "tobytes") else float(c[q]) != float(wv):
+                    if float(c[q]) != float(wv) and not (float(c[q]) != float(c[q]) and float(wv) != float(wv)):   # the number, whatever scalar type carries it
                         viol.append(_viol("element-values", i, st, f"[{key}].{g} = {c[q]!r} expected {wv!r}"))
     return True
 
